@@ -97,6 +97,20 @@ theorem MTree.rep (lim : Nat) (pick : List Int → Nat) (collect : Bool) (t : MT
       (fun hc => by have := hl hc; simp at this; omega)
     exact Rep.merge h1 h2 (fun hc => by have := hl hc; simpa using this)
 
+theorem allVals_perm {xs ys : List SLeaf} (p : xs.Perm ys) : (allVals xs).Perm (allVals ys) := by
+  induction p with
+  | nil => exact List.Perm.refl _
+  | cons a _ ih => simpa [allVals] using List.Perm.append_left _ ih
+  | swap a b l =>
+    simp only [allVals, List.flatMap_cons]
+    rw [← List.append_assoc, ← List.append_assoc]
+    exact List.Perm.append_right _ List.perm_append_comm
+  | trans _ _ ih1 ih2 => exact ih1.trans ih2
+
+theorem allNe_perm {xs ys : List SLeaf} (p : xs.Perm ys) : allNe xs = allNe ys := by
+  unfold allNe
+  exact (p.map (·.ne)).sum_nat
+
 /-! ## quantiles -/
 
 theorem quantileIndex_lt {len qn qd : Nat} (hlen : 0 < len) (hq : qn ≤ qd) (hd : 0 < qd) :
